@@ -18,7 +18,7 @@ JOBS = {'quick': 4, 'thorough': 16}
 REQUIRED_MONITORS = ('equivariance_generic', 'invariants_axis_free', 'invariants_two_atom', 'distance_one_atom')
 REQUIRED_CLASSES = ('ref:1-atom', 'ref:2-atoms', 'ref:general', 'geometry:linear-z', 'geometry:partial-collinear',
                     'geometry:linear-moved', 'motion:generic', 'motion:translation', 'motion:rotation', 'motion:tiny',
-                    'motion:nearpi', 'motion:large-translation', 'motion:half-turn-axis', 'motion:bond-flip', 'motion:near-previous', 'anchor:near-collinear-judged', 'ref:2-atoms-not-bonded')
+                    'motion:nearpi', 'motion:large-translation', 'motion:half-turn-axis', 'motion:bond-flip', 'motion:near-previous', 'anchor:near-collinear-judged', 'ref:2-atoms-not-bonded', 'reference:through-the-parsers')
 RULE = ('(reference, target, s) as in C01 plus references of 1 and 2 atoms; each mapped on M rigidly moved copies (M = 8 '
         'quick, 64 thorough; rotation classes generic/tiny/near-pi/identity x translations up to +-100 nm). Non-trivial: '
         'the motion is not the identity. distinct = distinct (reference class, geometry, motion class, s class, size bucket)')
@@ -165,7 +165,14 @@ def run_case(ctx, case):
         tpos = emmon.gen_target(rng, pos, placement, mmax=40)
         scls = emmon.SCALES[int(rng.integers(0, 3))]
         s = emmon.gen_scale(rng, scls)
-        refm, tgtm = emmon.build_pair(rng, edges, pos, tpos)
+        through_files = (it % 5 == 2) and not near and len(pos) >= 2
+        refm, tgtm = emmon.build_pair(rng, edges, pos, tpos, files=through_files)
+        if through_files:
+            pos = np.array(refm.atoms_positions)          # the three-decimal coordinates of the file
+            if gen.min_pair_distance(pos) < 1e-3 or (rcls == 'general' and not emmon.frames_ok(len(pos), edges, pos)):
+                ctx.count('rejected_reference')
+                continue
+            ctx.hit('reference:through-the-parsers')
         np.random.seed(ctx.libseed(case['batch'], it))
         w = {'edges': edges, 'ref': pos, 'target': tpos, 's': s, 'geometry': info['geometry']}
         try:
